@@ -353,7 +353,16 @@ func c32AnyFloat(r *core.R) float64 {
 	}
 }
 
-func c32AnyLL(r *core.R) c32LL { return c32LL{c32AnyFloat(r), c32AnyFloat(r)} }
+// c32ZeroLLs: positions that coincide with the zero value of a decoded
+// position (null island and its relatives).
+var c32ZeroLLs = []c32LL{{0, 0}, {0, 0}, {math.Copysign(0, -1), 0}, {0, 90}, {51.5, 0}, {0, -180}}
+
+func c32AnyLL(r *core.R) c32LL {
+	if r.Chance(0.04) {
+		return core.Pick(r, c32ZeroLLs)
+	}
+	return c32LL{c32AnyFloat(r), c32AnyFloat(r)}
+}
 
 func c32AnyLine(r *core.R, lo, hi int) []c32LL {
 	n := r.Range(lo, hi)
@@ -487,6 +496,9 @@ func c32ValidGeom(r *core.R, typ string) (c32Geom, int) {
 	switch typ {
 	case "Point":
 		g.pt = c32LL{c32Degrees(r, 90), c32Degrees(r, 180)}
+		if r.Chance(0.04) {
+			g.pt = core.Pick(r, c32ZeroLLs)
+		}
 	case "MultiPoint":
 		g.line = line()
 	case "LineString":
